@@ -16,6 +16,7 @@ import Jsonapi.Driver.Codec
 import Jsonapi.Driver.Request
 import Jsonapi.Driver.JsonText
 import Jsonapi.Driver.Misc
+import Jsonapi.Driver.FilterJson
 open Jsonapi Jsonapi.Driver
 
 structure DState where
@@ -68,6 +69,9 @@ def stepLine (st : DState) (line : String) : DState × String :=
     (st, m ++ "\t" ++ sp ++ "\t" ++ (if dom then "1" else "0"))
   | [.list (.atom "codec" :: args)] =>
     let (m, sp, dom) := stepCodec args
+    (st, m ++ "\t" ++ sp ++ "\t" ++ (if dom then "1" else "0"))
+  | [.list (.atom "filterjson" :: args)] =>
+    let (m, sp, dom) := stepFilterJson args
     (st, m ++ "\t" ++ sp ++ "\t" ++ (if dom then "1" else "0"))
   | [.list (.atom "misc" :: args)] =>
     let (m', m) := stepMisc st.misc args
